@@ -356,6 +356,36 @@ class Runner:
                 out[(eio, ns)] = self.names.name(sid)
         return out
 
+    def mentions(self, t, sids=()):
+        """where the server still refers to transport `t` or to any of `sids` (real ids)"""
+        m = self.sio.manager
+        out = []
+        for ns, rooms in m.rooms.items():
+            for room, bd in rooms.items():
+                for sid, eio in bd.items():
+                    if eio == t or sid in sids:
+                        out.append('rooms[%s][%s]' % (ns, room))
+        for ns, lst in m.pending_disconnect.items():
+            if any(x in sids for x in lst):
+                out.append('pending_disconnect[%s]' % ns)
+        for name in ('callbacks', 'ack_counters'):
+            d = getattr(m, name, {})
+            if any(x in sids for x in d):
+                out.append(name)
+        if t in self.sio.environ:
+            out.append('environ')
+        if t in self.sio._binary_packet:
+            out.append('_binary_packet')
+        return out
+
+    def sids_of(self, t):
+        out = set()
+        for ns, rooms in self.sio.manager.rooms.items():
+            for sid, eio in rooms.get(None, {}).items():
+                if eio == t:
+                    out.add(sid)
+        return out
+
     def residue(self):
         m = self.sio.manager
         return {'rooms': len(m.rooms), 'pending': len(m.pending_disconnect), 'callbacks': len(m.callbacks),
@@ -542,12 +572,21 @@ def compare(op, impl, model):
 
 # ------------------------------------------------------------------ case execution, shrinking, replay
 
+PROBES = {'pre': None, 'post': None}
+
+
 def execute(mode, cfg, ops, coro=False):
     """Run a fixed op list on impl and model. -> (trace [(op, impl_obs, model_obs)], residue, snapshot, skipped)"""
     r = Runner(mode, cfg, coroutine_handlers=coro)
     try:
         ops = [o for o in ops if representable(o)]
-        impl = [r.do(copy.deepcopy(o)) for o in ops]
+        impl = []
+        for o in ops:
+            pre = PROBES['pre'](r, o) if PROBES['pre'] else None
+            obs = r.do(copy.deepcopy(o))
+            if PROBES['post']:
+                obs['probe'] = PROBES['post'](r, o, pre)
+            impl.append(obs)
         residue = r.residue()
     finally:
         r.close()
@@ -582,12 +621,13 @@ def shrink_ops(ops, still_fails, budget=120):
 
 
 def run_cases(ctx, profile, ncases, nops, oracle=None, nontrivial=None, modes=('threading', 'asyncio'),
-              final_lose_all=False, gen_hook=None):
+              final_lose_all=False, gen_hook=None, probe_pre=None, probe_post=None):
     """Generic K4 correspondence + oracle loop. `oracle(cfg, trace, residue)` returns a list of
     (signature_or_None, text) failures judged on the IMPLEMENTATION's observations only;
     `nontrivial(cfg, trace)` returns a hashable key or None."""
     from . import server_gen as SG
     rng = ctx.rng
+    PROBES['pre'], PROBES['post'] = probe_pre, probe_post
     nontriv = set()
     evals = 0
     samples = []
@@ -609,7 +649,10 @@ def run_cases(ctx, profile, ncases, nops, oracle=None, nontrivial=None, modes=('
                 if not representable(op):
                     ctx.count('skipped_unrepresentable')
                     continue
+                pre = probe_pre(runner, op) if probe_pre else None
                 obs = runner.do(copy.deepcopy(op))
+                if probe_post:
+                    obs['probe'] = probe_post(runner, op, pre)
                 sc.learn(op, obs)
                 ops.append(op)
                 impl.append(obs)
@@ -621,7 +664,10 @@ def run_cases(ctx, profile, ncases, nops, oracle=None, nontrivial=None, modes=('
             if final_lose_all:
                 for t in list(sc.open):
                     op = {'op': 'lost', 't': t, 'reason': 'transport close'}
+                    pre = probe_pre(runner, op) if probe_pre else None
                     obs = runner.do(op)
+                    if probe_post:
+                        obs['probe'] = probe_post(runner, op, pre)
                     sc.learn(op, obs)
                     ops.append(op)
                     impl.append(obs)
